@@ -98,3 +98,21 @@ impl From<ChMuxError<std::io::Error, std::io::Error>> for std::io::Error {
         }
     }
 }
+
+/// Verification hooks (add-only, compiled only with `--cfg remoc_verif`).
+#[cfg(remoc_verif)]
+#[allow(missing_docs, unused_imports)]
+pub mod verif {
+    pub use super::any_storage::verif_hooks as storage;
+    pub use super::client::verif_hooks as client;
+    pub use super::credit::verif_hooks as credit;
+    pub use super::listener::verif_hooks as listener;
+    pub use super::msg::verif_hooks as msg;
+    pub use super::mux::verif_hooks as mux;
+    pub use super::port_allocator::verif_hooks as port_allocator;
+    pub use super::receiver::verif_hooks as receiver;
+    pub use super::sender::verif_hooks as sender;
+
+    /// Lowest protocol version that supports port ids.
+    pub const PROTOCOL_VERSION_PORT_ID: u8 = super::PROTOCOL_VERSION_PORT_ID;
+}
